@@ -2,6 +2,9 @@
 (* C19, model level.  A state is one measurement set on template Tpl: an observable CORE structure (which buses     *)
 (* carry a voltage / an injection pair, which branch ends carry a flow pair) plus the way the user extended and     *)
 (* wrote it down: a class of redundant measurements added (red), duplicated rows (dup), row order (ord).            *)
+(* wv is the level of the transformer's rated winding voltages (EstimationDef!Wind) of the network the set is        *)
+(* measured on: every observable set that contains a current magnitude at a transformer side is also instantiated   *)
+(* on the template with off-nominal windings (action Rewind, taken last).                                            *)
 (* Init = every core of the enumerated family that satisfies the observability predicate (and, with Deficient, the  *)
 (* sub-minimal ones that the code must refuse); Next = the three user actions the property quantifies over.         *)
 (* out = what the spec derives for the state: the table to create row by row, where the property is required, the   *)
@@ -12,6 +15,7 @@ CONSTANTS MaxV,          \* cores carry 1..MaxV voltage measurements
           Surplus,       \* cores have at most NState + Surplus measurements (0: exactly determined)
           Reds, Dups, Ords,   \* classes the actions may choose (subsets of RedClasses, DupClasses, OrdClasses)
           Depth,         \* at most Depth of the three dimensions are changed
+          Winds,         \* subset of WindClasses, contains "rated": winding levels of the template's transformer
           Deficient      \* TRUE: also start from sets with fewer than NState measurements (conformance of the count test)
 VARIABLES s, out
 
@@ -26,10 +30,10 @@ Start == IF Deficient THEN Cores \cup Short ELSE Cores
 
 Derive(x) == Bind(Table(x), LAMBDA tab : Bind(Meas(x), LAMBDA m :
   [rows |-> Rows(tab), observable |-> Observable(m), nocritical |-> NoCritical(m), countok |-> CountOK(tab), df |-> Chi2Df(tab),
-   zkeys |-> ZKeys(tab), zidx |-> ZIdx(tab), zw4 |-> ZW4(tab)]))
+   zkeys |-> ZKeys(tab), zidx |-> ZIdx(tab), zw4 |-> ZW4(tab), wind |-> Wind(x.wv)]))
 Changed(x) == (IF x.red = "none" THEN 0 ELSE 1) + (IF x.dup = "none" THEN 0 ELSE 1) + (IF x.ord = "created" THEN 0 ELSE 1)
 
-Init == /\ s \in [core : Start, red : {"none"}, dup : {"none"}, ord : {"created"}]
+Init == /\ s \in [core : Start, red : {"none"}, dup : {"none"}, ord : {"created"}, wv : {"rated"}]
         /\ out = Derive(s)
 \* the user adds a class of further exact measurements to the set
 AddRedundant(r) == /\ s.red = "none" /\ out.observable
@@ -40,16 +44,21 @@ Duplicate(d) == /\ s.dup = "none" /\ out.observable
 \* the user writes the same rows in another order
 Reorder(o) == /\ s.ord = "created" /\ out.observable
               /\ s' = [s EXCEPT !.ord = o]
-Next == /\ \/ /\ Changed(s) < Depth
+\* the same table is measured on the template whose transformer has the rated winding voltages of level w
+Rewind(w) == /\ s.wv = "rated" /\ out.observable /\ TrafoI(Meas(s)) # {}
+             /\ s' = [s EXCEPT !.wv = w]
+Next == /\ \/ /\ Changed(s) < Depth /\ s.wv = "rated"
               /\ \/ \E r \in Reds \ {"none"} : AddRedundant(r)
                  \/ \E d \in Dups \ {"none"} : Duplicate(d)
                  \/ \E o \in Ords \ {"created"} : Reorder(o)
-           \/ /\ s.dup # "none" /\ Changed(s) = Depth        \* the row order matters most when cells hold several rows:
+           \/ /\ s.dup # "none" /\ Changed(s) = Depth /\ s.wv = "rated"    \* the row order matters most when cells hold several rows:
               /\ \E o \in Ords \ {"created"} : Reorder(o)   \* reordering a table with duplicates is always explored
+           \/ \E w \in Winds \ {"rated"} : Rewind(w)         \* independent of Depth: a level of the network, not of the table
         /\ out' = Derive(s')
 
 \* ---- model-level theorems, checked by TLC on every state -----------------------------------------------------------
 ASSUME Reds \subseteq RedClasses /\ Dups \subseteq DupClasses /\ Ords \subseteq OrdClasses
+ASSUME Winds \subseteq WindClasses /\ "rated" \in Winds
 \* two independent definitions of "the flow-measured branches contain a spanning tree"
 ASSUME \A E \in SUBSET BrId : HasSpanningTree(E) <=> Connected(E)
 \* the sufficient predicate implies the code's necessary count test: no required case is refused by check_observability
@@ -70,6 +79,14 @@ M_TableSound == Bind(Table(s), LAMBDA tab :
                   /\ \A k \in DOMAIN out.zidx : /\ out.zidx[k] + 1 \in DOMAIN tab
                                                 /\ KeyOf[tab[out.zidx[k] + 1].slot] = out.zkeys[k]
                                                 /\ \A j \in DOMAIN out.zidx : out.zidx[j] = out.zidx[k] => j = k)
+\* off-nominal windings are instantiated exactly where a current magnitude is measured at a transformer side, and every
+\* off-nominal level makes at least one of those measurements sit on a winding whose voltage differs from the bus voltage
+\* unless the set only measures the other side; the table, the requirement and the z layout do not depend on the level
+M_WindWellFormed == /\ out.wind = Wind(s.wv) /\ out.wind.hv \in 900..1100 /\ out.wind.lv \in 900..1100
+                    /\ (s.wv # "rated" => out.observable /\ TrafoI(Meas(s)) # {})
+                    /\ (s.wv = "both_off" => OffNominalI(Meas(s), s.wv) = TrafoI(Meas(s)))
+                    /\ s.wv # "rated" => Bind(Derive([s EXCEPT !.wv = "rated"]), LAMBDA o : o.rows = out.rows /\ o.observable = out.observable
+                                                                        /\ o.zkeys = out.zkeys /\ o.zw4 = out.zw4)
 \* the required outcome is invariant along every action (the property's invariance, at model level)
 M_ActionsKeepRequirement == [][out'.observable = out.observable /\ s'.core = s.core]_<<s, out>>
 =============================================================================
